@@ -395,7 +395,10 @@ def indexerL (c : ECfg) (L : Lim) (r : ObjL) (args : VL) : RL ObjL := do
 
 /-- `x.name` for one element of a collection: one `#operator_.` call -/
 def memberVL (c : ECfg) (L : Lim) (name : Name) (x : Value) : RL Value := do
-  let v ← withConv (Eval.memberV name x) (measure L (sizeofV c x))
+  let v ← (match Eval.memberV name x with
+    -- neither a dict nor a collection: `get_property(obj, name)` binds the object, then `#property#name` is not found
+    | .error .unknownFunction => (do measure L (sizeofV c x); .error (.base .unknownFunction) : RL Value)
+    | res => withConv res (measure L (sizeofV c x)))
   measure L (sizeofV c v)
   pure v
 
@@ -412,7 +415,9 @@ def memberOfL (c : ECfg) (L : Lim) (r : ObjL) (name : Name) : RL ObjL :=
       let (items, err) ← bindIter c L r
       let s ← mapL (memberVL c L name) items err
       pure (.lazy s.1 s.2)
-    | none => .error (.base .unknownFunction)
+    | none => do
+      measure L (objSz c r)                     -- `get_property(obj, name)`
+      .error (.base .unknownFunction)
 
 def mkDictL (ps : KV) : RL ObjL :=
   if ps.all (fun p => hashable p.1) then .ok (.val (.dict (Seq.dOfPairs ps))) else .error (.base .type)
